@@ -20,6 +20,7 @@ import (
 	"strings"
 	"sync"
 	"time"
+	"unicode/utf8"
 
 	"verifh/cases"
 	"verifh/gitrepo"
@@ -833,6 +834,10 @@ func (e *scanEnv) runCLI(sc cases.ScanCase, opt cliOpt) (*cliRun, error) {
 		if err := json.Unmarshal(rr.Stdout, &m); err != nil {
 			res.Exit = 3
 			res.Stderr += "\n[harness] stdout is not JSON: " + err.Error()
+		} else if !utf8.Valid(rr.Stdout) {
+			// JSON text is UTF-8 (RFC 8259); Go's decoder is lenient about it, strict parsers are not
+			res.Exit = 3
+			res.Stderr += "\n[harness] stdout is not JSON: it is not valid UTF-8"
 		} else {
 			res.JSON = m
 		}
